@@ -18,4 +18,7 @@ def Panic.cls : Panic → String
   | .msg _ => "panic:msg"
   | .value => "panic:msg"
 
+-- results of panicking operations can be compared by `decide`
+deriving instance DecidableEq for Except
+
 end Rux
